@@ -15,6 +15,11 @@ pub enum Damage {
     Unsealed { page: u8, byte: u16, bit: u8 },
     /// overwrite a byte at a logical offset and re-seal the page
     Resealed { page: u8, byte: u16, value: u8 },
+    /// overwrite a field of the section header of point cloud `cloud` (1 section length, 2 data offset, 3 index offset)
+    /// and re-seal the pages: values beyond the file, inside a checksum, zero, ...
+    CloudHeader { cloud: u8, field: u8, value: u64 },
+    /// flip a bit of the 48-byte file header (without fixing the checksum of page 0); the file need not open any more
+    HeaderBit { byte: u8, bit: u8 },
 }
 
 #[derive(Clone, Serialize, Deserialize)]
@@ -29,6 +34,11 @@ pub struct Case {
 }
 
 pub fn damaged(bytes: &[u8], damage: &[Damage]) -> Vec<u8> {
+    damaged_with(bytes, damage, &[])
+}
+
+/// `sections`: physical offsets of the point cloud sections (for `Damage::CloudHeader`).
+pub fn damaged_with(bytes: &[u8], damage: &[Damage], sections: &[u64]) -> Vec<u8> {
     let mut b = bytes.to_vec();
     let pages = b.len() / 1024;
     for d in damage {
@@ -38,6 +48,35 @@ pub fn damaged(bytes: &[u8], damage: &[Damage]) -> Vec<u8> {
                 let pg = (*page as usize) % pages.max(1);
                 let off = pg * 1024 + (*byte as usize % 1020).max(if pg == 0 { 48 } else { 0 });
                 b[off] ^= 1 << (bit % 8);
+            }
+            Damage::HeaderBit { byte, bit } => {
+                let at = *byte as usize % 48;
+                if at < b.len() {
+                    b[at] ^= 1 << (bit % 8);
+                }
+            }
+            Damage::CloudHeader { cloud, field, value } => {
+                if sections.is_empty() {
+                    continue;
+                }
+                let start = sections[*cloud as usize % sections.len()] + 8 * (*field as u64 % 3 + 1);
+                // the 8 bytes of the field, skipping checksum bytes when the header straddles a page
+                let mut p = start;
+                for v in value.to_le_bytes() {
+                    if p % 1024 >= 1020 {
+                        p += 4;
+                    }
+                    if (p as usize) < b.len() {
+                        b[p as usize] = v;
+                    }
+                    p += 1;
+                }
+                for pg in [start / 1024, p / 1024] {
+                    let at = pg as usize * 1024;
+                    if at + 1024 <= b.len() {
+                        e57ref::pages::reseal(&mut b[at..at + 1024]);
+                    }
+                }
             }
             Damage::Resealed { page, byte, value } => {
                 let pg = (*page as usize) % pages.max(1);
@@ -60,7 +99,7 @@ impl Check for C17 {
     const ID: &'static str = "C17";
     fn rule() -> String {
         "Files with several point clouds, blobs and images from the writer generator (1 in 4 of medium size: sections start up to 110 pages into the file), optionally damaged (bit flips in page payload without \
-         re-sealing => checksum failures; byte overwrites with re-sealed checksum => damaged sections) as long as the file still opens; x sequences \
+         re-sealing => checksum failures; byte overwrites with re-sealed checksum => damaged sections; section header fields of a point cloud set to zero, into a checksum, beyond the file) as long as the file still opens; x sequences \
          of up to 12 read operations {xml, descriptors, raw(i, take k), simple(i, options, take k), blob(j), blob(j) into a target with limited room that fails or reports Ok(0) when full} with arbitrary early termination on ONE \
          reader. 1 sequence in 5 runs on a device that serves short transfers and reports ONE transient error at a generated operation index: the operation in progress may fail, all later ones must be unaffected. Oracle: the result of every operation (hash of every Ok item in order, completion, error message) equals the result of the same \
          operation on a freshly opened reader. Non-trivial: sequence with an iterator abandoned early followed by another operation, or a failing \
@@ -84,7 +123,11 @@ impl Check for C17 {
         }
         let nd = s.weighted(&[3, 2, 1]);
         let damage = (0..nd)
-            .map(|_| if s.flag() { Damage::Unsealed { page: s.byte(), byte: s.u16(), bit: s.byte() } } else { Damage::Resealed { page: s.byte(), byte: s.u16(), value: s.byte() } })
+            .map(|_| match s.weighted(&[4, 4, 2]) {
+                0 => Damage::Unsealed { page: s.byte(), byte: s.u16(), bit: s.byte() },
+                1 => Damage::Resealed { page: s.byte(), byte: s.u16(), value: s.byte() },
+                _ => Damage::CloudHeader { cloud: s.byte(), field: s.below(3) as u8, value: *s.pick(&[0u64, 1, 47, 1020, 1022, 2044, 1 << 20, 1 << 40, u64::MAX, u64::MAX - 1023]) },
+            })
             .collect();
         let n = 2 + s.below(11) as usize;
         let ops = (0..n).map(|_| gen_op(s)).collect();
@@ -100,7 +143,9 @@ impl Check for C17 {
             v.label("writer_error_out_of_scope");
             return v;
         }
-        let bytes = damaged(&h.bytes(), &case.damage);
+        let intact = h.bytes();
+        let sections: Vec<u64> = guard(|| E57Reader::new(MemDev::with_data(intact.clone())).map(|r| r.pointclouds().iter().map(|p| p.file_offset).collect()).unwrap_or_default()).unwrap_or_default();
+        let bytes = damaged_with(&intact, &case.damage, &sections);
         let free = tr.blobs.clone();
         if !case.damage.is_empty() {
             v.label("damaged_file");
